@@ -9,6 +9,7 @@ import multiprocessing
 import os
 import pathlib
 import random
+import shutil
 import traceback
 from concurrent.futures import ThreadPoolExecutor
 
@@ -134,10 +135,13 @@ def start_subs(lab, cases):
             return c["id"], comp.run_case(lab, c)
         except Exception as e:      # reported by run_stream as "implementation raised"
             return c["id"], e
-    ex = ThreadPoolExecutor(max_workers=max(1, env.JOBS - 1))
+    ex = ThreadPoolExecutor(max_workers=max(1, env.JOBS // 2))
     futs = [ex.submit(work, c) for c in cases]
 
-    def wait():
+    def wait(cancel=False):
+        if cancel:
+            ex.shutdown(wait=True, cancel_futures=True)
+            return
         for f in futs:
             cid, r = f.result()
             comp.SUB_RESULTS[cid] = r
@@ -214,9 +218,10 @@ def main(tier, seed):
                         n += 1
                         c["id"] = "i%d" % n
             # worker processes are forked before any thread exists
-            pool = multiprocessing.get_context("fork").Pool(max(1, env.JOBS), initializer=_worker_init)
+            pool = multiprocessing.get_context("fork").Pool(max(1, env.JOBS - env.JOBS // 2), initializer=_worker_init)
             wait_subs = start_subs(lab, subs)
-            d = coqrun.rundir(PROP)
+            # a run directory of its own: concurrent invocations of this check must not wipe each other's shards
+            d = coqrun.rundir("%s-%d" % (PROP, os.getpid()))
             try:
                 streams.sort(key=lambda nc: any(c["kind"] == "sub" for c in nc[1]))   # interpreter cases last
                 for name, cases in streams:
@@ -240,7 +245,8 @@ def main(tier, seed):
                 pool.terminate()
                 pool.join()
                 if wait_subs:
-                    wait_subs()
+                    wait_subs(cancel=True)
+                shutil.rmtree(d, ignore_errors=True)
             unconsulted = sorted(f for f in lab.ref_bytes if f not in consulted)
             c = run.coverage
             c["consulted_entries"] = sorted(consulted)
@@ -296,7 +302,7 @@ def replay(path):
         case = comp.from_json(rep["case"])
         case["id"] = "replay"
         res = comp.run_case(lab, case)
-        d = coqrun.rundir(PROP + "_replay")
+        d = coqrun.rundir("%s_replay-%d" % (PROP, os.getpid()))
         lit = comp.render(case, res)       # before comp.IMPORTS is read: rendering adds Definitions to it
         bad = coqrun.eval_cases(d, "replay", comp.IMPORTS, "cache_case", "cache_case_code", [lit])
         code = bad.get(0, 0)
@@ -305,6 +311,7 @@ def replay(path):
                           "damage": [r["faults"] for r in case["rounds"]],
                           "starts": [[{"ok": s["ok"], "error": s["error"], "events": s["events"], "vals": s["vals"]}
                                       for s in r["starts"]] for r in res["rounds"]]}, default=str)[:5000])
+        shutil.rmtree(d, ignore_errors=True)
         return 1 if code else 0
     finally:
         lab.close()
